@@ -1,5 +1,6 @@
 //! C09: Wrath header streams = RC4-drop1024 under HMAC-SHA1(direction constant, session key).
 use crate::ctx::*;
+use wow_srp::wrath_header::WrathServerAttempt;
 use sha1::{Digest, Sha1};
 use wow_srp::normalized_string::NormalizedString;
 use wow_srp::verif_hooks::internals as hk;
@@ -375,6 +376,130 @@ pub fn run(ctx: &mut Ctx) {
                 }
             }
         }
+    }
+    // ---- oracle 3: traffic that goes through the typed header entry points is traffic too.  Per direction a
+    //      mixed sequence of headers and raw payload chunks; the wire must be plaintext xor the independent
+    //      RC4-drop1024 stream, and the peer - decoding headers through the Read-based call, the array call or
+    //      (server -> client) the two-step calls, payload through raw decrypt - must recover everything and
+    //      stay in step to the end.
+    let n = if quick { 400 } else { 4000 };
+    for k in 0..n {
+        let key = gen_key(&mut rng, k + 9);
+        let items = 1 + rng.range(0, 12) as usize;
+        let mode = k % 3;                 // how the receiver decodes headers: 0 Read-based, 1 array / two-step, 2 alternate
+        for dir in 0..2 {
+            // the script: (is_header, size, opcode, payload)
+            let mut script: Vec<(bool, u32, u32, Vec<u8>)> = Vec::new();
+            for i in 0..items {
+                if rng.range(0, 3) != 0 {
+                    let size = if dir == 1 { match rng.range(0, 6) { 0 => 0x7FFF, 1 => 0x8000, 2 => rng.range(0x8000, 0x7FFFFF) as u32, 3 => 0x7FFFFF, _ => rng.range(0, 0x7FFF) as u32 } }
+                               else { rng.range(0, 0xFFFF) as u32 };
+                    let opcode = if dir == 1 { rng.range(0, 0xFFFF) as u32 } else { rng.next() as u32 };
+                    script.push((true, size, opcode, Vec::new()));
+                } else {
+                    let len = if i % 5 == 0 { rng.range(0, 600) } else { rng.range(0, 40) } as usize;
+                    script.push((false, 0, 0, rng.bytes(len)));
+                }
+            }
+            // plaintext of the whole direction, as the property describes the headers
+            let mut plain: Vec<u8> = Vec::new();
+            for (is_h, size, opcode, payload) in &script {
+                if *is_h {
+                    if dir == 1 {
+                        if *size <= 0x7FFF { plain.extend_from_slice(&[(*size >> 8) as u8, *size as u8, *opcode as u8, (*opcode >> 8) as u8]); }
+                        else { plain.extend_from_slice(&[0x80 | (*size >> 16) as u8, (*size >> 8) as u8, *size as u8, *opcode as u8, (*opcode >> 8) as u8]); }
+                    } else {
+                        plain.extend_from_slice(&[(*size >> 8) as u8, *size as u8]); plain.extend_from_slice(&opcode.to_le_bytes());
+                    }
+                } else { plain.extend_from_slice(payload); }
+            }
+            let sc = script.clone();
+            let r = catch(move || {
+                let (c, s) = pair(key);
+                let (mut ce, mut cd) = c.split();
+                let (mut se, mut sd) = s.split();
+                // sender
+                let mut wire: Vec<u8> = Vec::new();
+                for (is_h, size, opcode, payload) in &sc {
+                    if *is_h {
+                        if dir == 1 { wire.extend_from_slice(se.encrypt_server_header(*size, *opcode as u16)); }
+                        else { wire.extend_from_slice(&ce.encrypt_client_header(*size as u16, *opcode)); }
+                    } else {
+                        let mut b = payload.clone();
+                        if dir == 1 { se.encrypt(&mut b); } else { ce.encrypt(&mut b); }
+                        wire.extend_from_slice(&b);
+                    }
+                }
+                // receiver
+                let mut pos = 0usize;
+                let mut got: Vec<(bool, u32, u32, Vec<u8>)> = Vec::new();
+                let mut hcount = 0usize;
+                for (is_h, _, _, payload) in &sc {
+                    if *is_h {
+                        let read_based = mode == 0 || (mode == 2 && hcount % 2 == 0);
+                        hcount += 1;
+                        if dir == 1 {
+                            if read_based {
+                                let mut rd = std::io::Cursor::new(&wire[pos..]);
+                                match cd.read_and_decrypt_server_header(&mut rd) {
+                                    Ok(h) => { pos += rd.position() as usize; got.push((true, h.size, h.opcode as u32, Vec::new())); }
+                                    Err(_) => { got.push((true, u32::MAX, u32::MAX, Vec::new())); break; }
+                                }
+                            } else {
+                                if pos + 4 > wire.len() { break; }
+                                let buf = [wire[pos], wire[pos + 1], wire[pos + 2], wire[pos + 3]];
+                                match cd.attempt_decrypt_server_header(buf) {
+                                    WrathServerAttempt::Header(h) => { pos += 4; got.push((true, h.size, h.opcode as u32, Vec::new())); }
+                                    WrathServerAttempt::AdditionalByteRequired => {
+                                        if pos + 5 > wire.len() { break; }
+                                        let h = cd.decrypt_large_server_header(wire[pos + 4]); pos += 5;
+                                        got.push((true, h.size, h.opcode as u32, Vec::new()));
+                                    }
+                                }
+                            }
+                        } else if read_based {
+                            let mut rd = std::io::Cursor::new(&wire[pos..]);
+                            match sd.read_and_decrypt_client_header(&mut rd) {
+                                Ok(h) => { pos += rd.position() as usize; got.push((true, h.size as u32, h.opcode, Vec::new())); }
+                                Err(_) => { got.push((true, u32::MAX, u32::MAX, Vec::new())); break; }
+                            }
+                        } else {
+                            if pos + 6 > wire.len() { break; }
+                            let mut buf = [0u8; 6]; buf.copy_from_slice(&wire[pos..pos + 6]);
+                            let h = sd.decrypt_client_header(buf); pos += 6;
+                            got.push((true, h.size as u32, h.opcode, Vec::new()));
+                        }
+                    } else {
+                        if pos + payload.len() > wire.len() { break; }
+                        let mut b = wire[pos..pos + payload.len()].to_vec();
+                        if dir == 1 { cd.decrypt(&mut b); } else { sd.decrypt(&mut b); }
+                        pos += payload.len();
+                        got.push((false, 0, 0, b));
+                    }
+                }
+                (wire, got, pos)
+            });
+            ctx.oracle_runs += 1;
+            let dname = if dir == 0 { "client_to_server" } else { "server_to_client" };
+            let sj: Vec<String> = script.iter().map(|(h, s, o, p)| if *h { format!("{{\"header\":[{},{}]}}", s, o) } else { format!("{{\"payload\":\"{}\"}}", hex(p)) }).collect();
+            let det = |what: &str| format!("{{\"what\":\"{}\",\"direction\":\"{}\",\"key\":\"{}\",\"receiver_mode\":{},\"script\":[{}]}}", what, dname, hex(&key), mode, sj.join(","));
+            match r {
+                None => ctx.fail("panic", det("panic in mixed header / payload traffic")),
+                Some((wire, got, pos)) => {
+                    let want = RefRc4::wrath(if dir == 0 { &C2S } else { &S2C }, &key).xor(&plain);
+                    if wire != want {
+                        let at = wire.iter().zip(want.iter()).position(|(a, b)| a != b).unwrap_or(wire.len().min(want.len()));
+                        ctx.fail("mixed_wire_bytes", det(&format!("wire of mixed header/payload traffic differs from plaintext xor the independent RC4-drop1024 stream, first at offset {}", at)));
+                    } else if got != script {
+                        let at = got.iter().zip(script.iter()).position(|(a, b)| a != b).unwrap_or(got.len().min(script.len()));
+                        ctx.fail("mixed_roundtrip", det(&format!("the peer does not recover item {} of the mixed traffic (headers through the typed calls, payload through raw decrypt)", at)));
+                    } else if pos != wire.len() {
+                        ctx.fail("mixed_consumed", det(&format!("the peer consumed {} of {} wire bytes", pos, wire.len())));
+                    }
+                }
+            }
+        }
+        ctx.count("oracle_mixed_traffic");
     }
     ctx.notes.push("independent oracle: textbook RC4 + hand-written HMAC over the sha-1 crate, direction constants copied from the property text; validated on RFC 6229 (2 keys, 32 bytes) and RFC 2202 (cases 1, 2, 6) at the start of every run".to_string());
 }
